@@ -492,7 +492,14 @@ def check_fold(rep, repo, f, table, comps):
         def __init__(self, val):
             self.val = val             # valuation: 'valid' -> bool, 'size' -> gt/eq/lt, ('rel', attr) -> better/equal/worse
             self.state = {a: Abs('old', a) for a in table}
-            self.te = TermEval(self.atom, self.cmp, self.call)
+            step_ = self
+            class TE(TermEval):
+                def truth(self, v):
+                    # `best or x`: a numeric best-so-far is falsy exactly when it is 0 - a value these statistics do take
+                    if isinstance(v, Abs) and v.tag == 'old' and table[v.data][3] == 'lt' and table[v.data][1] != 'size':
+                        return not step_.need(('falsy', v.data))
+                    return TermEval.truth(self, v)
+            self.te = TE(self.atom, self.cmp, self.call)
 
         def need(self, key):
             if key not in self.val:
@@ -638,10 +645,14 @@ def check_fold(rep, repo, f, table, comps):
                 out = st.execute()
             except Need as n:
                 opts = {'valid': [True, False], 'size': ['gt', 'eq', 'lt']}.get(n.key, ['better', 'equal', 'worse'])
+                if isinstance(n.key, tuple) and n.key[0] == 'falsy':
+                    opts = [False, True]
                 for o in opts:
                     v2 = dict(val); v2[n.key] = o
                     stack.append(v2)
                 continue
+            if any(isinstance(k_, tuple) and k_[0] == 'falsy' and o_ and val.get(('rel', k_[1])) == 'better' for k_, o_ in val.items()):
+                continue              # the stored value is 0, the least these statistics can be: nothing is better
             paths += 1
             if out not in ('next', 'continue'):
                 mism.append((val, None, 'the enumeration is left by %s' % out, None))
@@ -658,6 +669,8 @@ def check_fold(rep, repo, f, table, comps):
                         if key == 'size' and 'size' in v:
                             key = ('rel', attr)
                         for o in (['gt', 'eq', 'lt'] if key == 'size' else ['better', 'equal', 'worse']):
+                            if o == 'better' and key != 'size' and v.get(('falsy', key[1])):
+                                continue
                             v2 = dict(v); v2[key] = o
                             todo.append(v2)
                         continue
@@ -679,7 +692,10 @@ def check_fold(rep, repo, f, table, comps):
         if 'valid' in v: parts.append('valid' if v['valid'] else 'invalid')
         if 'size' in v: parts.append('size %s best size' % {'gt': '>', 'eq': '==', 'lt': '<'}[v['size']])
         for k, x in v.items():
-            if isinstance(k, tuple):
+            if isinstance(k, tuple) and k[0] == 'falsy':
+                if x:
+                    parts.append('stored %s is 0 (falsy)' % table[k[1]][0])
+            elif isinstance(k, tuple):
                 parts.append('%s statistic %s than stored' % (table[k[1]][0], x) if x != 'equal' else '%s statistic equal to stored' % table[k[1]][0])
         return ', '.join(parts)
     seen_attr = set()
